@@ -102,6 +102,7 @@ def policy_history(ctx, sc, entry):
             ctx.viol("breaker-not-consulted", f"[{entry} call#{rec.idx}] no allow() before the call: {spy}", common.payload(sc, entry, rec.idx))
             return recs
         must_reject = model.allow(spy[0][4]) == {(False, model.mode)}
+        mode_before = model.mode
         for ev in spy:
             bad = feed(model, ev, ctx)
             if bad:
@@ -109,6 +110,32 @@ def policy_history(ctx, sc, entry):
                 return recs
         admitted = spy[0][1]
         ctx.add("states", str(model.abstract(world.t)))
+        if admitted and spy[0][2] == "half_open":
+            # this call was the probe: its scripted outcome decides the circuit's next state
+            from ..oracles import run_ending
+
+            how, seg = run_ending(v)
+            want = None
+            if how == "value":
+                want = "closed"
+            elif how in ("stopped", "deferred"):
+                want = "open"
+                if seg is not None and seg.out[0] == "sp" and seg.out[1] == "nested_open" and not entry.endswith(".execute"):
+                    want = None  # KF2: call() deliberately ignores a nested CircuitOpenError
+            elif how in ("aborted",):
+                want = "half_open"
+            if want is not None:
+                ctx.cnt["probe_outcomes_checked:" + how] += 1
+                if model.mode != want:
+                    ctx.viol(
+                        f"probe-outcome-not-applied:{how}",
+                        f"[{entry} call#{rec.idx}] the half-open probe ended '{how}' ({seg and seg.out}); circuit should be {want}, breaker was told {spy[1:]} and is {model.mode}",
+                        common.payload(sc, entry, rec.idx),
+                    )
+                    return recs
+                if want == "open" and model.opened_at != spy[-1][-1]:
+                    ctx.viol("probe-failure-without-fresh-timeout", f"[{entry} call#{rec.idx}] failed probe: opened_at {model.opened_at} != record time {spy[-1][-1]}", common.payload(sc, entry, rec.idx))
+                    return recs
         if not admitted:
             ctx.inc("rejections_observed")
             kind, val = rec.final
@@ -131,20 +158,20 @@ def policy_history(ctx, sc, entry):
 
 
 def gen_policy_history(rng):
-    sc = gen.rand_scenario(rng, max_attempts=(1, 3), p_special=0.06, specials=("abort", "cancel", "nested_open"), p_breaker=1.0, ncalls=(4, 10), p_abort=0.1, p_handler=0.1, p_budget=0.1)
+    sc = gen.rand_scenario(rng, max_attempts=(1, 3), p_special=0.06, specials=("abort", "cancel", "nested_open", "timeout", "timeout"), p_breaker=1.0, ncalls=(4, 10), p_abort=0.1, p_handler=0.1, p_budget=0.1)
     br = sc["cfg"]["breaker"]
     br["threshold"] = rng.randint(1, 3)
     rcv, w = br["recovery"], br["window"]
     for c in sc["calls"]:
         c["gap"] = rng.choice([0.0, 0.0, G, rcv - G, rcv, rcv + G, w - G, w, w + G, 0.25, 30.0])
         if rng.random() < 0.5:
-            c["outcomes"] = [[rng.choice(["exc", "res"]), rng.choice(br["trip_on"]), None] for _ in c["outcomes"]]
+            c["outcomes"] = [[rng.choice(["exc", "res"]), rng.choice(br.get("effective_trip_on") or br["trip_on"]), None] for _ in c["outcomes"]]
         c["durations"] = [rng.choice([0.0, 0.0, G, 0.25]) for _ in c["durations"]]
     if rng.random() < 0.15:
         sc["cfg"]["no_retry"] = True
     if rng.random() < 0.5:
         # goal-directed episode: trip, wait around the timeout, probe (success/failure), then single failures
-        k = br["trip_on"][0]
+        k = (br.get("effective_trip_on") or br["trip_on"])[0]
         th = br["threshold"]
         calls = sc["calls"]
         plan = []
@@ -161,7 +188,7 @@ def gen_policy_history(rng):
             c["abort_at"] = None
             n = len(c["outcomes"])
             if what == "fail":
-                c["outcomes"] = [["exc", k, None] for _ in range(n)]
+                c["outcomes"] = [(["exc", k, None] if rng.random() < 0.7 else ["sp", "timeout", k]) for _ in range(n)]
             elif what == "ok":
                 c["outcomes"] = [["ok"] for _ in range(n)]
             else:
@@ -292,6 +319,13 @@ def run_interleaving(prog, prefix, rng=None):
                 run.finals[c] = ("raise", x)
                 state[c] = "done"
             run.cur = None
+        # sequential tail: whatever happened concurrently, the fail-fast period runs from the moment the
+        # circuit opened; probe just before and just after that instant
+        run.tail = []
+        if run.breaker.state.value == "open":
+            run.cur = "tail"
+            run.tail_from = world.t
+        run.world_end = world.t
     return run, choices
 
 
@@ -332,6 +366,17 @@ def judge_interleaving(ctx, prog, run, choices):
                 return "rejected-but-invoked", f"call {cid} was rejected by the breaker yet its operation started [schedule {sched}]"
             if cid not in admitted:
                 return "operation-before-admission", f"call {cid} ran its operation before allow() [schedule {sched}]"
+    # tail: the model knows when the circuit opened; the real breaker must admit right after opened_at + recovery
+    if model.mode == "open":
+        world = env.World()
+        t_probe = model.opened_at + model.recovery + G
+        if t_probe >= run.world_end:
+            with env.active(world):
+                world.t = t_probe
+                d = CircuitBreaker.allow(run.breaker)
+            ctx.cnt["tail_probes"] += 1
+            if not d.allowed:
+                return "timeout-restarted-while-open", f"circuit opened at t={model.opened_at}; at t={t_probe} (recovery_timeout_s + one step later) allow() still rejects: the fail-fast period did not run from the moment of opening [schedule {sched}]"
     ctx.mx("max_probes_in_flight", maxprobe)
     if maxprobe > 1:
         return "two-probes-in-flight", f"{maxprobe} admitted probes in flight while half-open [schedule {sched}]"
@@ -379,7 +424,7 @@ def explore(ctx, prog, limit, rng):
 def gen_program(rng, k, retry, pid):
     rcv = rng.choice([1.0, 5.0])
     th = rng.randint(1, 2)
-    init = rng.choice(["expired", "expired", "boundary", "almost", "closed-near"])
+    init = rng.choice(["expired", "expired", "boundary", "almost", "closed-near", "closed-near", "closed-near"])
     pre = [["fail", "TRANSIENT"]] * th
     if init == "expired":
         pre += [["adv", rcv + G]]
@@ -391,7 +436,7 @@ def gen_program(rng, k, retry, pid):
         pre = [["fail", "TRANSIENT"]] * (th - 1)
     calls = []
     for c in range(k):
-        outs = [rng.choice([["ok"], ["exc", "TRANSIENT"], ["exc", "PERMANENT"], ["exc", "SERVER_ERROR"]]) for _ in range(2)]
+        outs = [rng.choice([["ok"], ["exc", "TRANSIENT"], ["exc", "TRANSIENT"], ["exc", "PERMANENT"], ["exc", "SERVER_ERROR"]]) for _ in range(2)]
         calls.append({"meth": rng.choice(["call", "execute"]), "suspends": rng.randint(1, 2), "dur": rng.choice([0.0, G, 0.25, 0.25, rcv, rcv + G]), "outcomes": outs,
                       "start_gap": rng.choice([0.0, 0.0, G, 2 * G]) if init in ("almost", "boundary") else 0.0, "abort": rng.random() < 0.15})
     return {"id": pid, "breaker": {"threshold": th, "window": 10.0, "recovery": rcv, "trip_on": ["TRANSIENT", "SERVER_ERROR"], "pre": pre, "init": init}, "retry": retry, "calls": calls}
@@ -407,8 +452,8 @@ def work(ctx, tier):
             if k == 0 and ctx.shard == 0 and len(ctx.samples) < 1:
                 ctx.sample({"policy_history": {"breaker": sc["cfg"]["breaker"], "gaps": [c["gap"] for c in sc["calls"]]}, "calls": [common.describe(r, 12) for r in recs[:4]]})
         ctx.inc("policy_histories")
-    nprog = (60 if tier == "quick" else 1500) // ctx.nshards
-    limit = 400 if tier == "quick" else 6000
+    nprog = (240 if tier == "quick" else 4000) // ctx.nshards
+    limit = 300 if tier == "quick" else 6000
     for p in range(nprog):
         k = rng.choice([2, 2, 3, 3, 4])
         retry = k == 2 and rng.random() < 0.6
